@@ -136,6 +136,8 @@ def gather(prop, cfgs, only=None, tier='thorough'):
             if tier == 'quick' and not quick_sample(fn, c, db):
                 continue
             ex = excluded(excl, c, fn, cfg)
+            if not ex and getattr(c, 'not_covered', None):
+                ex = {'reason': c.not_covered}
             if ex:
                 NOT_COVERED.append({'function': '%s %s(%s) [%s]' % (c.family, fn['name'], ', '.join(p['ctype'] for p in fn['params']), fn.get('owner') or '-'),
                                     'configuration': cfg, 'reason': ex['reason'][:160]})
